@@ -126,7 +126,7 @@ class Ctx:
         return env
 
     def go_test(self, pkg, run=None, env=None, race=False, timeout=900, tags="verif",
-                infile=None, count=True, panic_is_violation=False, replay=None, extra_args=None):
+                infile=None, count=True, panic_is_violation=False, replay=None, extra_args=None, allow_fail=False):
         """Build and run one driver test from /verif/harness against ctx.repo.
 
         Returns DriverResult parsed from the JSON file the driver writes to $VERIF_OUT."""
@@ -171,6 +171,8 @@ class Ctx:
             dr.infra = j.get("infra", []) or []
             dr.traces = j.get("traces", 0)
             dr.extra = j.get("extra", {}) or {}
+        if rc != 0 and allow_fail:
+            return dr
         if rc != 0:
             tail = so[-6000:]
             if panic_is_violation and ("panic:" in so or "fatal error:" in so or "DATA RACE" in so) and \
